@@ -740,6 +740,32 @@ def r_querystate(idx, rep, rule="R-QUERYSTATE"):
                           "the value returned by %s.%s depends on state written by earlier queries (%s): a repeated query can return the cached answer of "
                           "a previous pose / direction" % (ci.name, qname, "; ".join(sorted(set(bad))[:3])),
                           "query-written state %s reaches the result only as a search start hint" % sorted(written))
+    # second clause: what a query writes is private to the query.  No OTHER method of a collider (first_vertex, center, aabb, collider2origin, ...) reads it,
+    # neither on self nor through a member object (`self._support_function.first_idx`): those answers must be functions of the pose alone.
+    qwritten = {}       # attribute name -> class that writes it in a query method
+    for mname in ("distance3d.mesh", "distance3d.colliders"):
+        for ci in idx.module(mname).classes.values():
+            for qname in ("__call__", "support_function"):
+                q = ci.methods.get(qname)
+                if q is None:
+                    continue
+                for n in ast.walk(q.node):
+                    if isinstance(n, ast.Attribute) and isinstance(n.ctx, ast.Store) and u(n.value) == "self":
+                        qwritten[n.attr] = ci
+    for mname in ("distance3d.mesh", "distance3d.colliders"):
+        for ci in idx.module(mname).classes.values():
+            for name, meth in sorted(ci.methods.items()):
+                if name in ("__call__", "support_function", "__init__", "update_pose"):
+                    continue
+                reads = [n for n in ast.walk(meth.node) if isinstance(n, ast.Attribute) and isinstance(n.ctx, ast.Load) and n.attr in qwritten
+                         and u(n.value).split(".")[0] == "self"]
+                key = "%s|no answer from query-written state" % meth.key
+                if reads:
+                    rep.bad(rule, key, "%s:%d" % (meth.module.relpath, reads[0].lineno),
+                            "%s.%s reads `%s`, which %s.__call__ / support_function overwrites on every query: its answer depends on the queries made before "
+                            "(an updated collider and a freshly built one at the same pose disagree)" % (ci.name, name, u(reads[0]), qwritten[reads[0].attr].name))
+                else:
+                    rep.ok(rule, key, meth.where, "reads no query-written state")
 
 
 
